@@ -236,8 +236,14 @@ func genC11(e *emitter, tier string, seed uint64) {
 	if tier != "quick" {
 		n = 20000
 	}
+	// input / output counts on either side of the one-byte varint limit (the two count prefixes change width separately)
+	boundary := [][2]int{{1, 252}, {1, 253}, {2, 254}, {252, 1}, {253, 1}, {254, 2}, {253, 253}, {252, 253}, {253, 252}}
 	for i := 0; i < n; i++ {
 		tx := genFeeTx(r, 1+r.n(4), r.n(7), 35, 40)
+		if i < 2*len(boundary) {
+			tx = genFeeTx(r, boundary[i/2][0], boundary[i/2][1], 35, 40)
+			e.note("fee.count-boundary")
+		}
 		switch r.n(12) {
 		case 0:
 			tx.Inputs[r.n(len(tx.Inputs))].PreviousTxScript = nil
